@@ -140,6 +140,9 @@ def run(rep: Report, tier: str) -> None:
 	rule_accessor(rep, idx)
 	rule_templates(rep)
 	rule_merge(rep, idx)
+	rule_scope_visibility(rep, idx)
+	rule_member_lookup_scope(rep, idx)
+	rule_import_alias(rep, idx)
 	rule_identifier_classes(rep, idx)
 	rep.extra_coverage['tainted_sites'] = len(tainted_sites)
 	rep.extra_coverage['tainted_by_kind'] = {k: sum(1 for s in tainted_sites if s.kind == k) for k in sorted({s.kind for s in tainted_sites})}
@@ -404,6 +407,24 @@ def rule_merge(rep: Report, idx: SourceIndex) -> None:
 		return
 	collected = f.params()[1] if f.params()[0] in ('cls', 'self') else f.params()[0]
 	aliases = {collected} | {st.targets[0].id for st in f.node.body if isinstance(st, ast.Assign) and len(st.targets) == 1 and isinstance(st.targets[0], ast.Name) and isinstance(st.value, ast.Name) and st.value.id == collected}
+	# the comparison may live in a same-class helper (`cls._relationed(decl_vars, add_var)`): it is judged where it is written, with the helper's
+	# parameter that receives the collected mapping
+	from vlib.norm import helper_closure
+	def _has_cmp(g) -> bool:
+		return sum(1 for c_ in ast.walk(g.node) if isinstance(c_, ast.Call) and unparse(c_.func).endswith('ModuleDSN.expanded')) >= 2
+	if not _has_cmp(f):
+		for g in helper_closure(f):
+			if g is f or not _has_cmp(g):
+				continue
+			for c_ in ast.walk(f.node):
+				if isinstance(c_, ast.Call) and isinstance(c_.func, ast.Attribute) and c_.func.attr == g.name and isinstance(c_.func.value, ast.Name) and c_.func.value.id in ('self', 'cls'):
+					gp = [p_ for p_ in g.params() if p_ not in ('self', 'cls')]
+					got = {gp[i] for i, a in enumerate(c_.args) if i < len(gp) and isinstance(a, ast.Name) and a.id in aliases}
+					if got:
+						f, aliases = g, got
+						break
+			if f is g:
+				break
 	bases: dict[str, ast.Name] = {}
 	for body, chain in inlined_bodies2(f, 2):
 		for c_ in nodes_(body, ast.Call):
@@ -435,6 +456,24 @@ def rule_merge(rep: Report, idx: SourceIndex) -> None:
 			r.violate('compared-declaration', (m.relpath, sel[0].lineno), f'_merged compares the added variable with ONE collected declaration, `{unparse(sel[0])[:100]}`: when two unrelated bindings share a spelling (a loop-local `t`, then a function-level `t`), the representative is the wrong one, the nested assignment `t = 1` becomes a new declaration (`int t = 1;` shadows the outer variable); renaming either binding changes the output', unparse(sel[0])[:120])
 	if not decided:
 		r.skip('compared-declaration', f.where, f'binding of the compared declaration not recognised ({sorted(bases)})')
+	# the search over the collected declarations may stop early only on a POSITIVE scope comparison: a break that follows the name filter alone makes the
+	# first declaration with that spelling decide (a loop-local `t` collected before the function-level `t`)
+	from vlib.fold import enclosing_loop
+	from vlib.match import atoms as atoms_, expand_use
+	from vlib.match import split_tuple_assigns
+	fs = split_tuple_assigns(f.node)
+	for lp in nodes_(fs, ast.For):
+		if unparse(lp.iter).split('.')[0] not in aliases or not unparse(lp.iter).endswith(('.values()', '.items()')):
+			continue
+		for brk in nodes_(lp, (ast.Break, ast.Return)):
+			if isinstance(brk, ast.Break) and enclosing_loop(fs, brk) is not lp:
+				continue
+			inside = [(a, p_) for a, p_ in atoms_(fs, brk) if any(a is x for x in ast.walk(lp))]
+			scope_tests = [(a, p_) for a, p_ in inside if 'ModuleDSN.expanded' in unparse(expand_use(fs, a)) or '.scope' in unparse(expand_use(fs, a))]
+			if scope_tests:
+				r.ok('search-stops-on-match-only', (m.relpath, brk.lineno))
+			else:
+				r.violate('search-stops-on-match-only', (m.relpath, brk.lineno), f'the search over the collected declarations ends at `{unparse(brk)}` under {[(unparse(a)[:50], p_) for a, p_ in inside]} — no scope comparison: the FIRST collected declaration with the same spelling decides alone; with a loop-local `t` collected before the function-level `t`, a later `t = v` in a nested block is taken for a new declaration (`int t = v;` shadows the outer variable and the function returns the stale value)', unparse(brk))
 
 
 def rule_identifier_classes(rep: Report, idx: SourceIndex) -> None:
@@ -492,3 +531,145 @@ def rule_identifier_classes(rep: Report, idx: SourceIndex) -> None:
 			r.check(not bad or ignore, key, (rel, c_.lineno), f'the pattern `{text[:70]}` has a character class with {bad[0] if bad else ""}: an identifier is matched or not depending on its letter case (`_lim` matches, `_Lim` does not), so a consistent renaming changes what is extracted from the rendered code', text[:100])
 	if n_pat == 0:
 		r.skip('patterns', None, 'no constant regexp found in the C++ back end')
+
+
+def rule_scope_visibility(rep: Report, idx: SourceIndex) -> None:
+	"""SymbolFinder.__allow_scope answers, for ONE candidate scope, whether a name used at `node` may be looked up there. For a class scope the answer is
+	"only from directly inside that class's body" (not from its methods, not from a class nested in it): it relates the position of the node to the
+	position of THAT class. A decision computed from the node's path alone (e.g. relative to the innermost enclosing class) gives the same answer for
+	every enclosing class scope: the body of a nested class then sees the members of all outer classes, and which binding a bare name resolves to
+	depends on whether an outer class happens to have a member of that spelling."""
+	from vlib.match import expand_use, nodes
+	r = rep.rule('C08/class-scope-visibility-relative-to-the-class', 'every non-constant decision SymbolFinder.__allow_scope returns for a class scope is computed from the examined scope (its class / path) as well as from the node', floor=1)
+	m = idx.mod('rogw/tranp/semantics/finder.py')
+	rep.consulted(m.relpath)
+	f = m.func('SymbolFinder.__allow_scope')
+	if f is None:
+		r.skip('__allow_scope', (m.relpath, 1), 'SymbolFinder.__allow_scope vanished')
+		return
+	params = [p_ for p_ in f.params() if p_ not in ('self', 'cls')]
+	if len(params) != 3:
+		r.skip('__allow_scope', f.where, f'unexpected parameters {params}')
+		return
+	_, node_p, scope_p = params
+	n_dec = 0
+	from vlib.norm import helper_closure
+	helpers = {g.name: g for g in helper_closure(f) if g is not f}
+	for ret in nodes(f.node, ast.Return):
+		v = ret.value
+		if v is None or isinstance(v, ast.Constant):
+			continue
+		e = expand_use(f.node, v, depth=5)
+		# may-dependence closure over every assignment of the function (tuple and starred targets included): a superset of what the value depends on
+		names = {x.id for x in ast.walk(e) if isinstance(x, ast.Name)}
+		grew = True
+		while grew:
+			grew = False
+			for a in nodes(f.node, (ast.Assign, ast.AnnAssign, ast.AugAssign)):
+				if getattr(a, 'value', None) is None:
+					continue
+				tgts = a.targets if isinstance(a, ast.Assign) else [a.target]
+				tnames = {x.id for t in tgts for x in ast.walk(t) if isinstance(x, ast.Name)}
+				if tnames & names:
+					src = {x.id for x in ast.walk(a.value) if isinstance(x, ast.Name)}
+					if not src <= names:
+						names |= src
+						grew = True
+		if node_p not in names:
+			continue  # decisions about the scope alone (kind of scope, presence in the table)
+		n_dec += 1
+		# a same-class helper that receives the scope (or something derived from it) counts as looking at it
+		r.check(scope_p in names, f'return@{unparse(v)[:40]}', (m.relpath, ret.lineno), f'__allow_scope decides `{unparse(v)[:80]}` from `{node_p}` alone (after substituting locals: `{unparse(e)[:120]}`), without the examined scope `{scope_p}`: every enclosing class scope gets the same answer, so a bare name in the body of a nested class is looked up in the outer classes first and resolves to `Outer.<name>` whenever such a member exists (renaming that member changes the inferred type)', unparse(ret))
+	if n_dec == 0:
+		r.skip('__allow_scope', f.where, 'no decision of __allow_scope is computed from the node position')
+
+
+def rule_member_lookup_scope(rep: Report, idx: SourceIndex) -> None:
+	"""SymbolFinder.find_by_symbolic serves two lookups: a bare name (prop_name == '') is searched from the innermost scope outwards; a MEMBER of a
+	class (`prop_name` given for a class node) exists in that class's own namespace only. Handing both the same outward scope list searches
+	`<class name>.<member>` in every enclosing scope: a class nested in another class is answered by a module-level class that merely has the same
+	spelling (`Outer.A.v` typed from `A.v`), before the base classes are tried. The scope list must therefore depend on `prop_name`."""
+	from vlib.match import atoms as atoms_, nodes
+	r = rep.rule('C08/member-lookup-stays-in-the-class-namespace', 'in SymbolFinder.find_by_symbolic the scope list handed to the search depends on prop_name (a member lookup does not walk the scopes enclosing the class)', floor=1)
+	m = idx.mod('rogw/tranp/semantics/finder.py')
+	f = m.func('SymbolFinder.find_by_symbolic')
+	if f is None:
+		r.skip('find_by_symbolic', (m.relpath, 1), 'SymbolFinder.find_by_symbolic vanished')
+		return
+	params = [p_ for p_ in f.params() if p_ not in ('self', 'cls')]
+	prop_p = params[2] if len(params) >= 3 else None
+	searches = [c_ for c_ in nodes(f.node, ast.Call) if isinstance(c_.func, ast.Attribute) and '__find_raw' in c_.func.attr and len(c_.args) >= 2]
+	if prop_p is None or not searches:
+		r.skip('find_by_symbolic', f.where, 'find_by_symbolic no longer hands a scope list to __find_raw / __find_raw_for_type')
+		return
+	for c_ in searches:
+		sc = c_.args[1]
+		names = {x.id for x in ast.walk(sc) if isinstance(x, ast.Name)}
+		guards: list[ast.AST] = []
+		grew = True
+		while grew:
+			grew = False
+			for a in nodes(f.node, (ast.Assign, ast.AnnAssign, ast.AugAssign)):
+				if getattr(a, 'value', None) is None:
+					continue
+				tgts = a.targets if isinstance(a, ast.Assign) else [a.target]
+				if {x.id for t in tgts for x in ast.walk(t) if isinstance(x, ast.Name)} & names:
+					src = {x.id for x in ast.walk(a.value) if isinstance(x, ast.Name)}
+					ctl = {x.id for g, _ in atoms_(f.node, a) for x in ast.walk(g) if isinstance(x, ast.Name)}
+					if not (src | ctl) <= names:
+						names |= src | ctl
+						grew = True
+		r.check(prop_p in names, f'{c_.func.attr.lstrip("_")}:scopes', (m.relpath, c_.lineno), f'find_by_symbolic searches `{unparse(c_.args[2]) if len(c_.args) > 2 else "?"}` in `{unparse(sc)[:60]}`, a scope list that does not depend on `{prop_p}`: the member of a class is looked up like a bare name, from the scope of the class outwards, so for a class nested in a class a module-level class of the same spelling answers first (`class A: v: int`, `class Outer: class A(Base)` with Base.v: str -> `Outer.A.v` is typed int; renaming the unrelated module-level class changes the result)', unparse(c_))
+
+
+def rule_import_alias(rep: Report, idx: SourceIndex) -> None:
+	"""`from m import C as K`: inside this module the class is called K, inside m it is called C. When a dotted name `K.AA` is followed through the import,
+	the key looked up in m must be built from the ENTITY name. Every member of the ImportAsName node that reads `self.alias` (symbol, tokens, the
+	domain name — derived from the node classes, not listed) yields the local spelling: a key built from it exists only when alias and entity are
+	spelled alike, so the same program is accepted with `import C` and rejected with `import C as K`."""
+	from vlib.match import deref, nodes
+	from vlib.nodemodel import NodeModel
+	r = rep.rule('C08/imported-key-uses-the-entity-name', 'SymbolFinder.__find_imported_raw builds the key in the imported module from a member of the import node that does not depend on its alias (entity_symbol), never from one that does (symbol / tokens / domain_name)', floor=1)
+	m = idx.mod('rogw/tranp/semantics/finder.py')
+	f = m.func('SymbolFinder.__find_imported_raw')
+	nm = NodeModel(idx)
+	ian = nm.by_name.get('ImportAsName')
+	if f is None or ian is None:
+		r.skip('__find_imported_raw', (m.relpath, 1), 'SymbolFinder.__find_imported_raw or the node class ImportAsName vanished')
+		return
+	# members of ImportAsName (through the MRO) whose value depends on `self.alias`
+	dep = {'alias'}
+	grew = True
+	members = {name for c in idx.mro(ian) for name in c.methods}
+	while grew:
+		grew = False
+		for name in members - dep:
+			g = idx.lookup(ian, name)
+			if g is None:
+				continue
+			reads = {x.attr for x in ast.walk(g.node) if isinstance(x, ast.Attribute) and isinstance(x.value, ast.Name) and x.value.id == 'self'}
+			if reads & dep:
+				dep.add(name)
+				grew = True
+	joins = [c_ for c_ in nodes(f.node, ast.Call) if unparse(c_.func).endswith(('ModuleDSN.full_join', 'ModuleDSN.full_joined')) and len(c_.args) >= 2 and isinstance(c_.args[0], ast.Attribute) and c_.args[0].attr == 'module_path']
+	if not joins:
+		r.skip('__find_imported_raw', f.where, 'no ModuleDSN.full_join(<imported module>, <name>) in __find_imported_raw')
+		return
+	for c_ in joins:
+		name_e = deref(f.node, c_.args[1])
+		chain = []
+		x = name_e
+		while isinstance(x, ast.Attribute):
+			chain.append(x.attr)
+			x = x.value
+		chain.reverse()  # e.g. ['node', 'entity_symbol', 'tokens'] on import_raw, or ['entity_symbol', 'tokens'] on a local holding the node
+		first = next((a for a in chain if a != 'node'), None)
+		key = f'full_join:{unparse(name_e)[:40]}'
+		if first is None:
+			r.skip(key, (m.relpath, c_.lineno), 'name part of the imported key is not a member of the import node')
+		elif first in dep:
+			r.violate(key, (m.relpath, c_.lineno), f'the key in the imported module is built from `{unparse(name_e)}`; `{first}` of an ImportAsName depends on its alias ({sorted(dep - {"alias"})} do): for `from m import C as K` the dotted type `K.AA` is searched as `m#K.AA`, is not found, and the declaration ends in SymbolNotDefined although the same program with `import C` / `C.AA` transpiles — the outcome depends on the spelling of a local alias', unparse(c_))
+		elif first == 'entity_symbol' or (first == 'types' and 'domain_name' in chain):
+			r.ok(key, (m.relpath, c_.lineno))
+		else:
+			r.skip(key, (m.relpath, c_.lineno), f'`{unparse(name_e)[:60]}`: member `{first}` not classified')
